@@ -140,13 +140,20 @@ def run(ctx):
     tv = ctx.need('MPT-C09c', ENGINES[0])
     if tv is not None:
         ctx.touch(tv, len(tv.blocks))
-        fb = tv.calls_to(ENGINES[1])
+        fb = lib.op_calls(F, tv, (ENGINES[1],))       # direct calls, or calls of a thin private wrapper of the fallback engine
         ctx.floor('MPT-C09c', len(fb), 3, 'fallbacks from the Tantivy path to the lex engine')
         params = [i for i in range(1, tv.r['argc'] + 1) if 'HashSet<u64>' in tv.local_ty(i)]
         for c in fb:
             ctx.evaluations += 1
             sl = lib.slice_back(tv, c.args[-1:], through_calls=False, at=(c.bb, None))
-            if params and params[0] in sl.args:
+            through = True
+            if not c.is_(ENGINES[1]):
+                # the wrapper must hand its own filter parameter on to the engine
+                h = F.fns[c.local_callee]
+                ctx.touch(h, len(h.blocks))
+                hp = [i for i in range(1, h.r['argc'] + 1) if 'HashSet<u64>' in h.local_ty(i)]
+                through = bool(hp) and all(hp[0] in lib.slice_back(h, x.args[-1:], through_calls=False, at=(x.bb, None)).args for x in h.calls_to(ENGINES[1]))
+            if params and params[0] in sl.args and through:
                 ctx.ok('MPT-C09c', tv, 'fallback to the lex engine keeps the candidate filter', line=c.line)
             else:
                 ctx.bad('MPT-C09c', tv, 'fallback drops the candidate filter', line=c.line, detail='fallback-filter')
